@@ -37,11 +37,176 @@ structure Inv (c : Enc) (d : Dec) : Prop where
 theorem compress_ne (c : Enc) (t v : Nat) (h : c.t ≠ 0) :
     compress c t v = ((compressValue (compressTimestamp c t).1 v).1,
       (compressTimestamp c t).2 ++ (compressValue (compressTimestamp c t).1 v).2) := by
-  rw [compress, if_neg h]
+  rw [compress]
+  refine (if_neg h).trans ?_
+  generalize compressTimestamp c t = p
+  obtain ⟨c1, b1⟩ := p
+  simp only
+
+/- NOTE: the kernel must never be asked to check `(A, B).1 ≡ A` when `A` is itself `(f x).1` with `f`
+a big unfoldable function: it compares the arguments of the two `Prod.fst` first and unfolds `f`.
+Go through these abstract lemmas instead. -/
+theorem fst_mk {α β : Type} (a : α) (b : β) : (a, b).1 = a := rfl
+theorem snd_mk {α β : Type} (a : α) (b : β) : (a, b).2 = b := rfl
+
+theorem compress_ne_fst (c : Enc) (t v : Nat) (h : c.t ≠ 0) :
+    (compress c t v).1 = (compressValue (compressTimestamp c t).1 v).1 :=
+  (congrArg Prod.fst (compress_ne c t v h)).trans (fst_mk _ _)
+
+theorem compress_ne_snd (c : Enc) (t v : Nat) (h : c.t ≠ 0) :
+    (compress c t v).2 = (compressTimestamp c t).2 ++ (compressValue (compressTimestamp c t).1 v).2 :=
+  (congrArg Prod.snd (compress_ne c t v h)).trans (snd_mk _ _)
 
 theorem encodePts_cons (c : Enc) (t v : Nat) (ps : List (Nat × Nat)) :
     encodePts c ((t, v) :: ps) = ((encodePts (compress c t v).1 ps).1,
       (compress c t v).2 ++ (encodePts (compress c t v).1 ps).2) := by
   rw [encodePts]
+
+/-! ### one point, encoder state already primed (`c.t ≠ 0`) -/
+
+theorem next_of_ok (d d1 d2 : Dec) (bs r r2 : Bits) (hdt : d.t ≠ 0)
+    (h1 : decompressTimestamp d bs = .ok (d1, r)) (h2 : decompressValue d1 r = some (d2, r2)) :
+    next d bs = .ok (d2, r2) := by
+  rw [next, if_neg hdt, h1]
+  simp only [h2]
+
+theorem next_of_eof (d : Dec) (bs : Bits) (hdt : d.t ≠ 0)
+    (h1 : decompressTimestamp d bs = .eof) : next d bs = .eof := by
+  rw [next, if_neg hdt, h1]
+
+theorem next_step (c : Enc) (d : Dec) (t v : Nat) (r : Bits) (inv : Inv c d)
+    (ht : t < P32) (ht0 : t ≠ 0) (hv : v < P64)
+    (hg : (-2047 ≤ dodOf c t ∧ dodOf c t ≤ 2048) ∨ dodOf c t % (P32 : Int) ≠ (P32 : Int) - 1) :
+    ∃ d1, next d ((compress c t v).2 ++ r) = .ok (d1, r) ∧ d1.t = t ∧ d1.value = v ∧
+      Inv (compress c t v).1 d1 := by
+  have hdt : d.t ≠ 0 := by rw [inv.t_eq]; exact inv.t_ne
+  have hrange := dodOf_range c t inv.delta_lt
+  have hts := ts_step d (dodOf c t) ((compressValue (compressTimestamp c t).1 v).2 ++ r)
+    (by rw [inv.delta_eq]; exact inv.delta_lt) hrange.1 hrange.2 hg
+  rw [tsDec_dodOf c d t ht inv.t_lt inv.t_eq inv.delta_eq, Nat.mod_eq_of_lt ht] at hts
+  have hfst := compressTimestamp_fst c t
+  rw [Nat.mod_eq_of_lt ht] at hfst
+  obtain ⟨d2, hd2, e_t, e_delta, e_val, hwin, c_val, c_t, c_delta⟩ :=
+    value_step (compressTimestamp c t).1 { d with delta := (t + P32 - c.t) % P32, t := t } v r hv
+      (by rw [hfst]; exact inv.value_eq) (by rw [hfst]; exact inv.value_lt)
+      (by rw [hfst]; exact inv.win)
+  refine ⟨d2, ?_, e_t, e_val, ?_⟩
+  · rw [compress_ne_snd c t v inv.t_ne, List.append_assoc, compressTimestamp_snd]
+    exact next_of_ok d _ d2 _ _ r hdt hts hd2
+  · rw [compress_ne_fst c t v inv.t_ne]
+    have hP : (t + P32 - c.t) % P32 < P32 := Nat.mod_lt _ (by simp only [P32]; omega)
+    constructor
+    · rw [c_t, hfst]; exact ht0
+    · rw [c_t, hfst]; exact ht
+    · rw [c_t, hfst, e_t]
+    · rw [c_delta, hfst, e_delta]
+    · rw [c_delta, hfst]; exact hP
+    · rw [c_val, e_val]
+    · rw [c_val]; exact hv
+    · exact hwin
+
+/-! ### the decode loop over primed states -/
+
+theorem encodePts_nil (c : Enc) : encodePts c [] = (c, []) := by rw [encodePts]
+
+theorem encodePts_cons_fst (c : Enc) (t v : Nat) (ps : List (Nat × Nat)) :
+    (encodePts c ((t, v) :: ps)).1 = (encodePts (compress c t v).1 ps).1 :=
+  (congrArg Prod.fst (encodePts_cons c t v ps)).trans (fst_mk _ _)
+
+theorem encodePts_cons_snd (c : Enc) (t v : Nat) (ps : List (Nat × Nat)) :
+    (encodePts c ((t, v) :: ps)).2 = (compress c t v).2 ++ (encodePts (compress c t v).1 ps).2 :=
+  (congrArg Prod.snd (encodePts_cons c t v ps)).trans (snd_mk _ _)
+
+/-- the finish marker stops a primed decoder -/
+theorem next_finish (c : Enc) (d : Dec) (pad : Bits) (inv : Inv c d) :
+    next d (finish c ++ pad) = .eof := by
+  have hdt : d.t ≠ 0 := by rw [inv.t_eq]; exact inv.t_ne
+  apply next_of_eof d _ hdt
+  rw [finish, if_neg inv.t_ne, wbF]
+  rw [decompressTimestamp_of d _ (writeBits 0xFFFFFFFF 32 ++ ([false] ++ pad)) ([false] ++ pad) 32
+    (0xFFFFFFFF % 2 ^ 32) (by simp only [List.cons_append, List.nil_append, List.append_assoc, dodBitN])
+    (by omega) (readBits_writeBits _ _ _)]
+  exact if_pos ⟨rfl, by omega⟩
+
+theorem decodeLoop_succ_ok (fuel : Nat) (d d1 : Dec) (bs r : Bits) (h : next d bs = .ok (d1, r)) :
+    decodeLoop (fuel + 1) d bs = ((d1.t, d1.value) :: (decodeLoop fuel d1 r).1, (decodeLoop fuel d1 r).2) := by
+  rw [decodeLoop, h]
+
+theorem decodeLoop_succ_eof (fuel : Nat) (d : Dec) (bs : Bits) (h : next d bs = .eof) :
+    decodeLoop (fuel + 1) d bs = ([], .eof) := by
+  rw [decodeLoop, h]
+
+theorem decodeLoop_encodePts (pts : List (Nat × Nat)) : ∀ (c : Enc) (d : Dec) (fuel : Nat) (pad : Bits),
+    Inv c d → okPtsL c pts → pts.length < fuel →
+    decodeLoop fuel d ((encodePts c pts).2 ++ (finish (encodePts c pts).1 ++ pad)) = (pts, .eof) := by
+  induction pts with
+  | nil =>
+    intro c d fuel pad inv _ hf
+    obtain ⟨f, rfl⟩ : ∃ f, fuel = f + 1 := ⟨fuel - 1, by simp only [List.length_nil] at hf; omega⟩
+    rw [encodePts_nil, List.nil_append]
+    exact decodeLoop_succ_eof f d _ (next_finish c d pad inv)
+  | cons p ps ih =>
+    intro c d fuel pad inv hok hf
+    obtain ⟨t, v⟩ := p
+    obtain ⟨f, rfl⟩ : ∃ f, fuel = f + 1 := ⟨fuel - 1, by simp only [List.length_cons] at hf; omega⟩
+    obtain ⟨ht, ht0, hv, hg, hrest⟩ := hok
+    rw [encodePts_cons_fst, encodePts_cons_snd, List.append_assoc]
+    obtain ⟨d1, hnext, e1, e2, inv1⟩ := next_step c d t v
+      ((encodePts (compress c t v).1 ps).2 ++ (finish (encodePts (compress c t v).1 ps).1 ++ pad)) inv ht ht0 hv hg
+    rw [decodeLoop_succ_ok f d d1 _ _ hnext,
+      ih (compress c t v).1 d1 f pad inv1 hrest (by simp only [List.length_cons] at hf; omega), e1, e2]
+
+/-! ### the first point -/
+
+theorem compress_first (header t v : Nat) (hf : okFirstL header t) :
+    compress (Enc.new header).1 t v =
+      ({ header := header, t := t, tDelta := t - header, lead := 255, trail := 0, value := v },
+       writeBits (t - header) 14 ++ writeBits v 64) := by
+  obtain ⟨h1, h2, h3, h4, h5⟩ := hf
+  rw [compress]
+  refine (if_pos rfl).trans ?_
+  have e1 : t % P32 = t := Nat.mod_eq_of_lt h2
+  have e2 : header % P32 = header := Nat.mod_eq_of_lt h1
+  have e3 : (t + P32 - header) % P32 = t - header := by
+    simp only [P32] at h1 h2 ⊢; omega
+  simp only [Enc.new, firstDeltaBits, e1, e2, e3]
+  have e4 : ¬ toS32 (t - header) < 0 := by
+    rcases toS32_cases (t - header) with ⟨_, e⟩ | ⟨h, _⟩
+    · rw [e]; omega
+    · omega
+  rw [if_neg e4]
+
+theorem compress_first_fst (header t v : Nat) (hf : okFirstL header t) :
+    (compress (Enc.new header).1 t v).1 =
+      { header := header, t := t, tDelta := t - header, lead := 255, trail := 0, value := v } :=
+  (congrArg Prod.fst (compress_first header t v hf)).trans (fst_mk _ _)
+
+theorem compress_first_snd (header t v : Nat) (hf : okFirstL header t) :
+    (compress (Enc.new header).1 t v).2 = writeBits (t - header) 14 ++ writeBits v 64 :=
+  (congrArg Prod.snd (compress_first header t v hf)).trans (snd_mk _ _)
+
+/-- the decoder state right after `NewDecompressIterator` -/
+def dec0 (header : Nat) : Dec :=
+  { header := header, t := 0, delta := 0, lead := 0, trail := 0, value := 0 }
+
+theorem first_step (header t v : Nat) (r : Bits) (hf : okFirstL header t) (hv : v < P64) :
+    ∃ d1, next (dec0 header) ((compress (Enc.new header).1 t v).2 ++ r) = .ok (d1, r) ∧
+      d1.t = t ∧ d1.value = v ∧ Inv (compress (Enc.new header).1 t v).1 d1 := by
+  rw [compress_first_fst header t v hf, compress_first_snd header t v hf, List.append_assoc]
+  obtain ⟨h1, h2, h3, h4, h5⟩ := hf
+  have r14 : readBits 14 (writeBits (t - header) 14 ++ (writeBits v 64 ++ r)) =
+      some (t - header, writeBits v 64 ++ r) := readBits_writeBits_lt _ _ _ (by omega)
+  have r64 : readBits 64 (writeBits v 64 ++ r) = some (v, r) :=
+    readBits_writeBits_lt _ _ _ (by simp only [P64] at hv; omega)
+  have et : (header + (t - header)) % P32 = t := by
+    simp only [P32] at h2 ⊢; omega
+  refine ⟨{ header := header, t := t, delta := t - header, lead := 0, trail := 0, value := v },
+    ?_, rfl, rfl, ?_⟩
+  · rw [next]
+    refine (if_pos rfl).trans ?_
+    rw [decompressFirst]
+    simp only [firstDeltaBits, r14, r64, dec0, et]
+    rw [if_neg (by omega)]
+  · exact ⟨h3, h2, rfl, rfl, by simp only [P32] at h2 ⊢; omega, rfl, hv, Or.inl rfl⟩
 
 end SigModel.Lemmas.C08
